@@ -19,6 +19,7 @@ import (
 	"encoding/json"
 	"flag"
 	"fmt"
+	"net"
 	"os"
 	"path/filepath"
 	"sort"
@@ -74,10 +75,25 @@ type outcome struct {
 	all   []tailh.Line
 }
 
+// names that Tailer.tla creates as unix socket files; the listeners stay open for the life of the process
+var sockNames = map[string]bool{"a0.log": true}
+var sockListeners []net.Listener
+
 func mk(logs, n string) error {
 	p := filepath.Join(logs, n)
 	if dirNames[n] {
 		return os.Mkdir(p, 0o755)
+	}
+	if sockNames[n] {
+		l, err := net.Listen("unix", p)
+		if err != nil {
+			return err
+		}
+		if ul, ok := l.(*net.UnixListener); ok {
+			ul.SetUnlinkOnClose(false) // the history deletes the name itself
+		}
+		sockListeners = append(sockListeners, l)
+		return nil
 	}
 	f, err := os.OpenFile(p, os.O_CREATE|os.O_EXCL|os.O_WRONLY, 0o600)
 	if err != nil {
